@@ -23,7 +23,7 @@ RULE = ("A generated valid object of each of the seven formats receives exactly 
         "pair to rich fixed objects so no pair stays unexplored. Converse: every uncorrupted generated object, and objects "
         "sweeping every documented enumeration value (compose/release/variant/image types, image formats, label names, all "
         "architectures), dump without error. Non-trivial = the corrupted position is below the top level (nested variant, "
-        "image in a cell, section object); distinct = SHA-1 of object+corruption. Half of the corruptions are applied to an object that has already been written successfully once, some by mutating a container in place; pattern fields additionally receive mechanically derived near misses (every single-character edit of a valid exemplar that a regex-free reference predicate rejects).")
+        "image in a cell, section object); distinct = SHA-1 of object+corruption. Half of the corruptions are applied to an object that has already been written successfully once, some by mutating a container in place; pattern fields additionally receive mechanically derived near misses (every single-character edit of a valid exemplar that a regex-free reference predicate rejects). Sub-check caller-validates-first: in fresh interpreters the caller's own validate() calls on parts of a valid object come first, in a generated order, before the full corruption table is swept. A refused add that leaves its variant in the forest is a corruption of its own; each corrupt value is first shown to the read-only public helpers.")
 ASSUMPTIONS = ["values the code base does not document as invalid (blank release name/short, absolute instimage, trailing newlines) are deliberately absent from the table",
                "bool is an int in Python: True/False are not used as invalid integers"]
 FLOORS = {"distinct_nontrivial": 1200, "corruption": 800, "table-sweep": 150, "enumerations": 100}
@@ -256,6 +256,20 @@ def corrupt_and_dump(fmt, desc, corruption, via_file=False, validated_first=Fals
         else:
             setattr(inst, field, value)
             label = "%s.%s = %r" % (path, field, value)
+            if field == "id" and type(inst).__name__ == "Variant" and isinstance(value, str) and value and "-" not in value and corruption["target"] % 2:
+                # the variant is RENAMED consistently - container key, its UID and the UIDs below it follow the new id - so that
+                # the id rule alone decides (a stale key or a misaligned UID is a corruption of its own)
+                container = inst.parent if inst.parent is not None else obj.variants
+                for key in [k for k, v in container.variants.items() if v is inst]:
+                    del container.variants[key]
+                container.variants[value] = inst
+
+                def realign(v):
+                    v.uid = v.id if v.parent is None else "%s-%s" % (v.parent.uid, v.id)
+                    for kid in v.variants.values():
+                        realign(kid)
+                realign(inst)
+                label += " (renamed consistently, uid %r)" % inst.uid
     else:
         names = rules.SPECIALS.get(fmt, [])
         if not names:
@@ -539,7 +553,7 @@ def run(ctx):
     ctx.forall("corruption", case_strategy, corruption_case, ctx.n(2400, 64000))
     ctx.sweep("table-sweep", table_cases(), table_case, exhaustive=True, stop_after=5)
     ctx.sweep("enumerations", enumeration_cases(), enumeration_case, exhaustive=True, stop_after=5)
-    ctx.sweep("caller-validates-first", fresh_cases(8 if not ctx.thorough else 64), fresh_case, stop_after=2)
+    ctx.sweep("caller-validates-first", fresh_cases(4 if not ctx.thorough else 48), fresh_case, stop_after=2)
 
 
 REPLAY = {"caller-validates-first": fresh_case, "corruption": corruption_case, "table-sweep": table_case, "enumerations": enumeration_case, "subclass-instances": subclass_case}
